@@ -143,6 +143,27 @@ def from_expr(fn, e, atomize, prog=None, depth=0):
     a = atomize(fn, e)
     if a is not None:
         return a
+    if e.get("k") == "Match" and (e.get("ty") in (None, "bool")) and not e.get("source", "").startswith(("ForLoop", "TryDesugar")) and depth < 4:
+        # `matches!(x, A | B)` and hand-written boolean matches: the disjunction over the arms that yield true
+        alts, earlier = [], []
+        for arm in e.get("arms", []):
+            pf = pat_formula(arm["pat"])
+            gf = from_expr(fn, arm["guard"], atomize, prog, depth + 1) if "guard" in arm else TRUE
+            here = conj([pf, gf])
+            alts.append(conj([neg(x) for x in earlier] + [here, from_expr(fn, arm["body"], atomize, prog, depth + 1)]))
+            earlier.append(here)
+        return disj(alts)
+    if e.get("k") == "If" and (e.get("ty") in (None, "bool")) and "else" in e and depth < 4:
+        c_ = from_expr(fn, e["cond"], atomize, prog, depth + 1)
+        return disj([conj([c_, from_expr(fn, e["then"], atomize, prog, depth + 1)]), conj([neg(c_), from_expr(fn, e["else"], atomize, prog, depth + 1)])])
+    if e.get("k") in ("BlockExpr", "Block") and depth < 4:
+        b_ = e.get("block", e)
+        if not b_.get("stmts") and "tail" in b_:
+            return from_expr(fn, b_["tail"], atomize, prog, depth + 1)
+    if e.get("k") == "MethodCall" and e.get("method") in ("is_some", "is_none", "is_ok", "is_err") and not e.get("args") and prog is not None:
+        f_ = someness(fn, e["recv"], atomize, prog, depth + 1)
+        if not (f_[0] == "atom" and f_[1].startswith("?")):
+            return f_ if e["method"] in ("is_some", "is_ok") else neg(f_)
     r = _gate._resolve_bool_local(fn, e)
     if r is not e and depth < 4:
         return from_expr(fn, r, atomize, prog, depth + 1)
@@ -151,6 +172,26 @@ def from_expr(fn, e, atomize, prog=None, depth=0):
         if x is not e:
             h = prog.resolve_local(e)
             return from_expr(h, x, atomize, prog, depth + 1)
+        # a crate predicate with several exits (guard clauses, let-else): the disjunction over its paths
+        h = prog.resolve_local(e)
+        if h is not None and h.body is not None and not h.rec.get("gen") and (h.rec.get("ret") or "") == "bool":
+            alts, okp = [], True
+            for conds, v in hir.decision_paths(h.body):
+                if v is None or (isinstance(v, dict) and v.get("k") == "?"):
+                    okp = False
+                    break
+                cs = []
+                for ce, cv in conds:
+                    if ce.get("k") == "PatCond":
+                        cs.append(from_cond(h, {"t": "pat", "scrut": ce["scrut"], "pat": ce["pat"], "v": cv}, atomize, prog))
+                    elif ce.get("k") == "ArmNot":
+                        cs.append(from_cond(h, {"t": "arm_not", "scrut": ce["scrut"], "pat": ce["pat"], "guard": ce.get("guard")}, atomize, prog) if cv else TRUE)
+                    else:
+                        f_ = from_expr(h, ce, atomize, prog, depth + 1)
+                        cs.append(f_ if cv else neg(f_))
+                alts.append(conj(cs + [from_expr(h, v, atomize, prog, depth + 1)]))
+            if okp and alts:
+                return disj(alts)
     return _opaque(e)
 
 
@@ -177,10 +218,17 @@ def someness(fn, e, atomize, prog=None, depth=0):
         return _opaque(e or {"k": "?"})
     e0 = hir.peel(e)
     k = e0.get("k")
+    a_ = atomize(fn, e0)
+    if a_ is not None:
+        return a_
     if k == "MethodCall":
         m = e0["method"]
         if m in ("then_some", "then"):
             return from_expr(fn, e0["recv"], atomize, prog, depth + 1)
+        if m == "filter" and e0.get("args") and "Option" in ((e0.get("callee") or {}).get("path") or ""):
+            cl = hir.peel(e0["args"][0])
+            body = from_expr(fn, cl["body"], atomize, prog, depth + 1) if cl.get("k") == "Closure" else _opaque(cl)
+            return conj([someness(fn, e0["recv"], atomize, prog, depth + 1), body])
         if m in _SOME_KEEP:
             return someness(fn, e0["recv"], atomize, prog, depth + 1)
     if k == "Call":
